@@ -484,6 +484,7 @@ type Clause struct {
 
 type LoopSpec struct {
 	Key        string
+	Exits      []*Clause // hold on every edge that leaves the loop
 	Invariants []*Clause
 	Decreases  *Clause
 	Line       int
@@ -521,6 +522,7 @@ type Contract struct {
 	NilRecv  bool // the method accepts a nil receiver
 	LoopInvs []*Clause // invariants of every loop of the function
 	Isolated []string            // struct types whose objects, when written by this function, may only reference objects of that type allocated during the current API call
+	Rejects  []*Clause           // reject "<message prefix>" <cond>: holds whenever the function builds an error with that message
 	NoReads  map[string][]string // struct type name -> fields the function must never read
 	PreOrder []int     // source order of requires (>=0: index into Requires) and lets (<0: -(index+1) into Lets)
 	Opaque    bool // havoc everything reachable (external default)
@@ -785,6 +787,37 @@ func parseSpecFile(src, prefix, file string, assumed bool) (*SpecFile, error) {
 			cur.Opaque = true
 		case "fresh":
 			cur.Fresh = append(cur.Fresh, strings.Fields(rest)...)
+		case "reject":
+			// reject[tags] "prefix" <expr>
+			if cur == nil || !strings.HasPrefix(rest, "\"") {
+				return nil, fail(fmt.Errorf("reject \"prefix\" <expr> inside a contract"))
+			}
+			j := strings.Index(rest[1:], "\"")
+			if j < 0 {
+				return nil, fail(fmt.Errorf("reject: unterminated prefix"))
+			}
+			prefix := rest[1 : 1+j]
+			src := strings.TrimSpace(rest[j+2:])
+			e, err := parseExpr(src)
+			if err != nil {
+				return nil, fail(err)
+			}
+			cur.Rejects = append(cur.Rejects, &Clause{Kind: "reject", Tags: tags, Src: src, E: e, Name: prefix, Line: ll.L})
+			curLoop = nil
+		case "exit":
+			if curLoop == nil {
+				return nil, fail(fmt.Errorf("exit outside loop"))
+			}
+			label := ""
+			if i := strings.Index(rest, ": "); i > 0 && isIdentLike(rest[:i]) {
+				label = rest[:i]
+				rest = strings.TrimSpace(rest[i+1:])
+			}
+			e, err := parseExpr(rest)
+			if err != nil {
+				return nil, fail(err)
+			}
+			curLoop.Exits = append(curLoop.Exits, &Clause{Kind: "exit", Tags: tags, Src: rest, E: e, Name: label, Line: ll.L})
 		case "noreads":
 			// noreads Schema: Title, Description, ...
 			i := strings.Index(rest, ":")
